@@ -63,7 +63,7 @@ class KeySpec(object):
     def loop(self, ex, st, n, itv):
         """for captured_arg in capture_args: invariant  args_for_keys = SELPOS(done), kwargs_for_key = (SELKD(done), SELKM(done));
         the step equations of the three spec functions (the documented selection rule) are instantiated for this iteration"""
-        if not (isinstance(n.target, ast.Name) and ex.is_kind(st, itv, 'list')):
+        if not (isinstance(n.target, ast.Name) and ex.is_kind(st, itv, 'list', 'set')):
             return None
         xs = st.seq(itv); args = st.lookup('args'); kwargs = st.lookup('kwargs')
         akeys, kkeys = st.lookup('args_for_keys'), st.lookup('kwargs_for_key')
